@@ -74,7 +74,7 @@ type Exec struct {
 	curBlock   *ssa.BasicBlock
 	famBirth   map[string]string // family version symbol -> $alloc symbol current when the version was created
 	epochAlloc map[int]string
-	specHook   func(term, famSym string)
+	specHook   func(term, famSym, container string)
 	curBinders []string
 	vacSeq     int
 	loopEntry  map[int]*State
